@@ -78,6 +78,23 @@ def build_pavexc():
     return DEFAULT_PAVEXC
 
 
+def build_pavexc_verif():
+    """The same sources with `--cfg pavex_verif`: the parallel sections of the documentation pipeline
+    run under the deterministic scheduler of rustdoc_processor::verif_sched when VERIF_PAR_SEED is set
+    (arm `par`). Own target dir, so the shipped build in /repo/target is never invalidated."""
+    custom = os.environ.get("COMPSIM_PAVEXC_VERIF")
+    if custom:
+        return custom
+    if not os.path.exists(os.path.join(REPO, "rustdoc/rustdoc_processor/src/verif_sched.rs")):
+        return None
+    tdir = os.path.join(WORK, "pavexc-verif-target")
+    env = dict(os.environ, CARGO_NET_OFFLINE="true", RUSTFLAGS="--cfg pavex_verif", CARGO_TARGET_DIR=tdir)
+    r = subprocess.run(["cargo", "build", "--offline", "-p", "pavexc_cli"], cwd=REPO, env=env, capture_output=True, text=True)
+    if r.returncode != 0:
+        harness_error("pavexc does not build from /repo with --cfg pavex_verif: " + r.stderr[-1500:])
+    return os.path.join(tdir, "debug", "pavexc")
+
+
 def check_std_docs():
     for n in ("core", "alloc", "std"):
         if not os.path.exists(os.path.join(NIGHTLY_JSON_DIR, n + ".json")):
@@ -139,6 +156,7 @@ def prepare(need_goldens=(), allow_slow=True):
     check_std_docs()
     build_shim()
     pavexc = build_pavexc()
+    pavexc_verif = build_pavexc_verif()
     corpus = load_corpus()
     base = read_fixture()
     bpdump = build_bpdump(base)
@@ -163,6 +181,7 @@ def prepare(need_goldens=(), allow_slow=True):
             UI.build_template(state_dir, corpus["ui_apps"], log)
         # the RON must be the same as the memoised one (same tree => same schema)
         ctx.world = W.World(pavexc, state_dir, corpus, base)
+        ctx.world.pavexc_verif = pavexc_verif
         ctx.world.compute_golden = lambda bp, tog: compute_goldens(ctx, [(bp, tuple(tog))])
         if not os.path.exists(os.path.join(state_dir, "snapshots.ok")):
             log(f"building cache snapshots for pavexc {binsha[:12]} (state {key}) ...")
@@ -451,7 +470,7 @@ def exec_digest(run):
     for ex in run["execs"]:
         rows.append([ex["step"].get("label"), ex["step"]["bp"], ex["step"]["mode"], ex["step"]["hash_seed"], ex["exit"],
                      ex["signal"], ex["trace_hash"], sorted((k, v[0]) for k, v in ex["after"].items()),
-                     ex["fault_fired"]])
+                     ex["fault_fired"], ex.get("par_trace_hash")])
     return sha256_bytes(json.dumps(rows, sort_keys=True).encode())[:16], rows
 
 
@@ -641,6 +660,10 @@ def cmd_check(prop, tier):
     det_ids = set()
     while len(det_ids) < n_det:
         det_ids.add(rng.choice(cheap)["id"])
+    # the seeded thread scheduler of arm `par` is re-checked in every batch
+    par_h = [h for h in cheap if h["arm"] == "par"]
+    for h in par_h[:1 if tier == "quick" else 6]:
+        det_ids.add(h["id"])
     twins = []
     for h in hists:
         if h["id"] in det_ids:
@@ -841,7 +864,8 @@ def cmd_check(prop, tier):
     wall = time.time() - T0
     expected_probes = ["cache_hit_after_edit", "sdk_file_rewritten", "check_found_outdated",
                        "error_path_with_2plus_diagnostics", "healed_after_fault", "rerun_on_unchanged_inputs",
-                       "pre_existing_sdk_present_at_failure", "third_party_docs_inserted_in_cache"]
+                       "pre_existing_sdk_present_at_failure", "third_party_docs_inserted_in_cache",
+                       "par_section_with_several_tasks"]
     sample_ids = []
     for arm in ("edit", "fault", "sibling", "sweep"):
         for h in hists:
@@ -869,6 +893,7 @@ def cmd_check(prop, tier):
             "probes_never_hit": [p for p in expected_probes if not probes.get(p)],
             "observations_not_violations": dict(sorted(observations.items())),
             "distinct_file_operation_traces": len(traces),
+            "distinct_thread_interleavings_arm_par": len({ex.get("par_trace_hash") for r in results.values() for ex in r["execs"] if ex.get("par_trace_hash")}),
             "cpu_s_median_per_class": med,
             "determinism_check": {"histories_run_twice": len(twins), "divergences": len(divergences),
                                   "compared": "exit status, shim op-trace hash, SHA-256 of every tracked file after each execution",
@@ -880,7 +905,7 @@ def cmd_check(prop, tier):
                                 "upstream UI-test workspace (real copy inside a symlink mirror of /repo)",
                                 "blueprints serialised by Blueprint::persist of the tree under test"],
             "components_stub": ["OS entropy (getrandom -> SplitMix64 from VERIF_HASH_SEED)", "ASLR off (setarch -R)",
-                                "rayon width fixed to 1", "disk faults / crash points injected by the LD_PRELOAD shim",
+                                "rayon width fixed to 1; arm `par`: the parallel sections of CrateCollection (cache look-ups, indexing) run on real threads of which exactly one runs at a time, released at yield points (diagnostic sink, cache look-up, task end) by a scheduler seeded from VERIF_PAR_SEED (cfg(pavex_verif) build of pavexc)", "disk faults / crash points injected by the LD_PRELOAD shim",
                                 "order and kind of runs chosen by the seeded history generator"],
             "violations_of_other_properties_seen": other,
             "known_findings_seen": n_known,
@@ -892,7 +917,7 @@ def cmd_check(prop, tier):
             f"the program dimension is two fixed corpora: /verif/fixtures ({sum(1 for b in corpus['blueprints'].values() if b['expect'] == 'accept')} accepted + "
             f"{sum(1 for b in corpus['blueprints'].values() if b['expect'] == 'reject')} rejected blueprints over simapp/simdep, with source edits) and the "
             f"{len(corpus['ui_apps'])} upstream UI-test applications of /repo/compiler/ui_tests (a seeded selection in quick, all of them in thorough)",
-            "cargo and rustdoc are deterministic for unchanged sources; only rayon width 1 is explored",
+            "cargo and rustdoc are deterministic for unchanged sources; rayon itself runs at width 1, thread interleavings of the two parallel sections that share state (diagnostic sink, cache) are explored by the seeded scheduler of arm `par`; the two remaining rayon sections (JSON loading, conversion to the cache format) are pure and stay at width 1",
             "golden bytes come from a clean world of the same pavexc binary: fresh scratch project, hash seed 0, cache holding only "
             "rows whose sources no history edits (toolchain crates, registry crates, /repo/runtime/pavex; no row of the path "
             "dependency simdep, no access log); toolchain-only and empty caches are explored as history start states",
